@@ -42,6 +42,11 @@ def need_bytes(kind):
     return 4
 
 
+def has_counters(kind):
+    """kinds with a 16-bit per-bucket fill counter (num / num_)"""
+    return kind.split(":")[0] in ("H5", "H5q5", "H5q7", "H6", "H9")
+
+
 def is_h10(kind):
     return kind.startswith("H10")
 
@@ -63,25 +68,28 @@ def table_bytes(kind):
 class Scn:
     """one scenario: configuration + data + (prefix, range)"""
 
-    def __init__(self, cfg, kind, maskbits, seed, style, dlen, tail, rc, p0, p1, s, e):
+    def __init__(self, cfg, kind, maskbits, seed, style, dlen, tail, rc, p0, p1, s, e, numinit=0, cls="sweep"):
         self.cfg, self.kind, self.maskbits, self.seed, self.style = cfg, kind, maskbits, seed, style
         self.dlen, self.tail, self.rc, self.p0, self.p1, self.s, self.e = dlen, tail, rc, p0, p1, s, e
+        # numinit: every per-bucket counter starts at this value (a bucket that has already received
+        # that many entries); cls: generator class, for the coverage histogram
+        self.numinit, self.cls = (numinit if has_counters(kind) else 0), cls
 
     def head(self):
         return "%d %d %d %d %s %d %d %s %d %d %d" % (self.cfg[0], self.cfg[1], self.cfg[2], self.cfg[3], self.kind,
                                                      self.maskbits, self.seed, self.style, self.dlen, self.tail, 1 if self.rc else 0)
 
     def x(self, ops):
-        return "X " + self.head() + " " + ops
+        return "X " + self.head() + " " + ("N %d " % self.numinit if self.numinit else "") + ops
 
     def p(self, allsplits, nparts, pseed, full=1):
-        return "P %s %d %d %d %d %d %d %d %d" % (self.head(), self.p0, self.p1, self.s, self.e, 1 if allsplits else 0, nparts, pseed, full)
+        return "P %s %d %d %d %d %d %d %d %d %d" % (self.head(), self.p0, self.p1, self.s, self.e, 1 if allsplits else 0, nparts, pseed, full, self.numinit)
 
     def case(self):
         return {"kind": kind_name(self.kind), "quality": self.cfg[0], "lgwin": self.cfg[1], "size_hint": self.cfg[2], "q9_5": self.cfg[3],
                 "mask_bits": self.maskbits, "seed": self.seed, "style": self.style, "data_len": self.dlen, "tail": self.tail,
                 "ring_consistent": bool(self.rc), "prefix": [self.p0, self.p1], "start": self.s, "end": self.e, "length": self.e - self.s,
-                "start_mod_32": self.s % 32}
+                "start_mod_32": self.s % 32, "counters_start_at": self.numinit, "class": self.cls}
 
 
 # Coq witnesses of proofs/Hashers_proofs.v (wbytes): replayed verbatim on the real code
@@ -153,6 +161,51 @@ def scenarios(run, kinds, thorough):
                 e = s + ln
                 tail = (nb + 10) if not h10 else 160
                 rnd.append(Scn(cfg, kind, mb, seed, style, n, tail, 1, 0, 0, s, e))
+    # ---- wrap points -------------------------------------------------------------------------
+    # (a) 16-bit bucket counters: short ranges over data whose windows share few keys (one key for
+    #     style 3 with period 1), started from counters a few steps before 65535 -> the counter of
+    #     a bucket wraps inside the range, at every alignment / length class / split point;
+    # (b) the same without presetting: one run of more than 65536 positions of a single key
+    #     (one-shot, bulk/range/partitions; without and behind a mask);
+    # (c) positions crossing 2^32 behind a mask (`ix as u32` wraps).
+    lens = [1, 2, 3, 4, 5, 7, 8, 9, 12, 15, 16, 17, 20, 24, 31, 32, 33, 34, 40, 48, 63, 64, 65, 66, 80, 96]
+    for cfg, kind in kinds:
+        nb = need_bytes(kind)
+        h10 = is_h10(kind)
+        tail = (nb + 10) if not h10 else 160
+        if has_counters(kind):
+            for maskbits in (0, 10):
+                for a in range(32):
+                    for ln in (lens if thorough else lens[(a % 2)::2]):
+                        seed = 7 * rng.randrange(1 << 20) if (a + ln) % 3 else rng.randrange(1 << 30)
+                        style = "3" if (a + ln) % 3 else "2"
+                        ni = 65535 - rng.randrange(0, 7)
+                        if maskbits == 0:
+                            s = 32 * rng.randrange(0, 4) + a
+                            e = s + ln
+                            p1 = rng.randrange(0, s + 1) if (a + ln) % 2 else 0
+                            p0 = max(0, p1 - rng.randrange(0, 12))
+                            rnd.append(Scn(cfg, kind, 0, seed, style, e + nb + rng.randrange(0, 5), 0, 1, p0, p1, s, e, ni, "counter-preset"))
+                        else:
+                            n = 1 << maskbits
+                            s = rng.randrange(1, 5) * n + ((n - 48) if (a + ln) % 2 else 64) + a
+                            rnd.append(Scn(cfg, kind, maskbits, seed, style, n, tail, 1, 0, 0, s, s + ln, ni, "counter-preset"))
+            for i in range(4 if thorough else 2):
+                seed = 7 * rng.randrange(1 << 20)
+                ln = 65536 + rng.randrange(1, 3000)
+                if i % 2 == 0:
+                    s = rng.randrange(0, 64)
+                    rnd.append(Scn(cfg, kind, 0, seed, "3", s + ln + nb + 3, 0, 1, 0, 0, s, s + ln, 0, "counter-long-run"))
+                else:
+                    mb = 12
+                    s = (1 << mb) * rng.randrange(1, 4) + rng.randrange(0, 1 << mb)
+                    rnd.append(Scn(cfg, kind, mb, seed, "3", 1 << mb, tail, 1, 0, 0, s, s + ln, 0, "counter-long-run"))
+        for i in range(8 if thorough else 4):
+            mb = rng.choice([10, 12])
+            s = (1 << 32) - rng.randrange(1, 70)
+            ln = rng.randrange(16, 97)
+            rnd.append(Scn(cfg, kind, mb, rng.randrange(1 << 30), rng.choice(styles), 1 << mb, tail, 1, 0, 0, s, s + ln,
+                           (65535 - rng.randrange(0, 4)) if i % 2 else 0, "u32-position-wrap"))
     return sweep, rnd
 
 
@@ -227,7 +280,7 @@ def check(run):
                        "also enter the 32-at-a-time bulk path of the H5 family)")
     total_eval, total_x = 0, 0
     samples = []
-    hist = {"kind": {}, "mask": {"none": 0, "ring": 0}, "len": {"0": 0, "1-15": 0, "16-32": 0, "33-96": 0, "97-574": 0, ">=575": 0},
+    hist = {"kind": {}, "class": {}, "mask": {"none": 0, "ring": 0}, "len": {"0": 0, "1-15": 0, "16-32": 0, "33-96": 0, "97-574": 0, ">=575": 0},
             "reached": {"fastpath_range": 0, "bulk32": 0, "ring_wrap_inside_range": 0, "prefix_nonempty": 0, "h10_thinned_range": 0}}
     nontriv = set()
     for prof in profiles:
@@ -317,7 +370,15 @@ def check(run):
             if k % step == 0 or sc.e - sc.s in (15, 16, 17, 32, 33, 34, 62, 63, 64):
                 for t, l in zip("BRS", x_triple(sc)):
                     xl.append(l); xmeta.append((sc, t, None))
+        longrun_seen = set()
         for sc in rnd:
+            if sc.cls == "counter-long-run" and not thorough:
+                # >65536 one-at-a-time model steps per line: in the quick tier the model runs one such
+                # triple per kind name and mask mode (the P lines above cover every descriptor)
+                key = (kind_name(sc.kind).split(":")[0], sc.maskbits != 0)
+                if key in longrun_seen:
+                    continue
+                longrun_seen.add(key)
             for t, l in zip("BRS", x_triple(sc)):
                 xl.append(l); xmeta.append((sc, t, None))
         # 4-at-a-time entry points, clone, out-of-bounds (panic) behaviour, inconsistent ring tail
@@ -435,12 +496,13 @@ def check(run):
             kn = kind_name(sc.kind).split(":")[0]
             hist["kind"][kn] = hist["kind"].get(kn, 0) + 1
             hist["mask"]["none" if sc.maskbits == 0 else "ring"] += 1
+            hist["class"][sc.cls] = hist["class"].get(sc.cls, 0) + 1
             ln = sc.e - sc.s
             b = "0" if ln == 0 else "1-15" if ln < 16 else "16-32" if ln <= 32 else "33-96" if ln <= 96 else "97-574" if ln < 575 else ">=575"
             hist["len"][b] += 1
             if ln >= 16:
                 hist["reached"]["fastpath_range"] += 1
-                nontriv.add((sc.kind, sc.maskbits, sc.seed, sc.style, sc.p0, sc.p1, sc.s, sc.e))
+                nontriv.add((sc.kind, sc.maskbits, sc.seed, sc.style, sc.p0, sc.p1, sc.s, sc.e, sc.numinit))
             if ln > 32 and sc.maskbits == 0:
                 hist["reached"]["bulk32"] += 1
             if sc.maskbits and (sc.s >> sc.maskbits) != ((sc.e + 10) >> sc.maskbits):
@@ -449,6 +511,10 @@ def check(run):
                 hist["reached"]["prefix_nonempty"] += 1
             if is_h10(sc.kind) and ln >= 575:
                 hist["reached"]["h10_thinned_range"] += 1
+            if sc.cls in ("counter-preset", "counter-long-run"):
+                hist["reached"]["bucket_counter_near_or_past_65535"] = hist["reached"].get("bucket_counter_near_or_past_65535", 0) + 1
+            if sc.cls == "u32-position-wrap":
+                hist["reached"]["position_crosses_2^32"] = hist["reached"].get("position_crosses_2^32", 0) + 1
         if not samples:
             samples = [plines[0], plines[len(plines) // 2], xl[0][:300], xl[len(xl) // 2][:300], xl[-1][:300]]
     run.cov["evaluations"] = total_eval + total_x
@@ -484,7 +550,8 @@ def replay(path):
         a = vlib.run_lines(impl, [line], shards=1)[0]
         head = " ".join(t[1:12])
         p0, p1, s, e = (int(x) for x in t[12:16])
-        pre = "S %d %d " % (p0, p1) if p1 > p0 else ""
+        ni = int(t[20]) if len(t) > 20 else 0
+        pre = ("N %d " % ni if ni else "") + ("S %d %d " % (p0, p1) if p1 > p0 else "")
         xs = ["X %s %sB %d %d L" % (head, pre, s, e), "X %s %sR %d %d L" % (head, pre, s, e), "X %s %sS %d %d L" % (head, pre, s, e)]
         ia = vlib.run_lines(impl, xs, shards=1)
         ma = vlib.run_lines(model, xs, shards=1)
